@@ -170,9 +170,9 @@ def pair(ctx, scen, idx, lines, stats=None, release=False, oracle=None, files_or
     """one correspondence case. on disagreement: shrink, direct oracle, record the violation."""
     d = os.path.join(ctx.root, '%s_%s' % (scen, idx))
     os.makedirs(d, exist_ok=True)
-    opsfile = os.path.join(d, 'case.ops')
-    C.write_ops(opsfile, lines)
-    r = C.compare(opsfile, os.path.join(d, 'w'), release=release, op_timeout=op_timeout)
+    segments = lines if (lines and isinstance(lines[0], list)) else [lines]
+    lines = [l for seg in segments for l in seg]
+    r = C.compare_segments(segments, os.path.join(d, 'w'), release=release, op_timeout=op_timeout)
     ctx.evaluations += 1
     ctx.scen_counts[scen] = ctx.scen_counts.get(scen, 0) + 1
     h = hashlib.sha1('\n'.join(lines).encode()).hexdigest()
@@ -196,28 +196,44 @@ def pair(ctx, scen, idx, lines, stats=None, release=False, oracle=None, files_or
         shutil.rmtree(d, ignore_errors=True)
         return r
     ctx.disagreements += 1
-    handle_disagreement(ctx, scen, idx, lines, r, extra_problem, release, oracle, op_timeout)
+    if len(ctx.violations) >= 3:
+        return r          # enough replays recorded for this run; further disagreements are only counted
+    handle_disagreement(ctx, scen, idx, segments, r, extra_problem, release, oracle, op_timeout)
     return r
 
 
-def impl_only(lines, workdir, release=False, op_timeout=20):
+def impl_only(segments, workdir, release=False, op_timeout=20):
+    if segments and not isinstance(segments[0], list):
+        segments = [segments]
     shutil.rmtree(workdir, ignore_errors=True)
     os.makedirs(workdir, exist_ok=True)
-    f = os.path.join(workdir, 'case.ops')
-    C.write_ops(f, lines)
-    il, ist = C.run_impl(f, os.path.join(workdir, 'impl'), release=release, op_timeout=op_timeout)
-    return il, ist
+    out = []
+    ist = 'ok'
+    for si, seg in enumerate(segments):
+        f = os.path.join(workdir, 'case%d.ops' % si)
+        C.write_ops(f, seg)
+        il, ist = C.run_impl(f, os.path.join(workdir, 'impl'), release=release, op_timeout=op_timeout)
+        ops = [l for l in seg if l.strip() and not l.startswith('#')]
+        if len(il) < len(ops) and ops[len(il)].split()[0] == 'kill9':
+            il = il + ['killed'] + ['skipped'] * (len(ops) - len(il) - 1)
+            ist = 'ok'
+        out += il
+        if ist != 'ok':
+            break
+    return out, ist
 
 
-def api_oracle(lines, workdir, release=False, files=True, op_timeout=20):
+def api_oracle(segments, workdir, release=False, files=True, op_timeout=20):
     """the property statement itself on the implementation: ideal maps + decoder. returns text or None"""
-    il, ist = impl_only(lines, workdir, release, op_timeout)
-    ops = [l for l in lines if l.strip() and not l.startswith('#')]
+    if segments and not isinstance(segments[0], list):
+        segments = [segments]
+    il, ist = impl_only(segments, workdir, release, op_timeout)
+    ops = [l for seg in segments for l in seg if l.strip() and not l.startswith('#')]
     bad = O.Ideal().check(ops, il)
     if bad:
         i, op, got, exp = bad[0]
         return 'op %d `%s` returned `%s`, the ideal map requires `%s`' % (i, op[:120], got[:160], exp[:160])
-    if ist != 'ok' and not (ops and ops[len(il)].split()[0] == 'kill9' if len(il) < len(ops) else False):
+    if ist != 'ok':
         i = len(il)
         return 'the implementation ended with %s at op %d `%s`' % (ist, i, ops[min(i, len(ops) - 1)][:120])
     for i, l in enumerate(il):
@@ -236,29 +252,26 @@ def api_oracle(lines, workdir, release=False, files=True, op_timeout=20):
     return None
 
 
-def handle_disagreement(ctx, scen, idx, lines, r, extra_problem, release, oracle, op_timeout):
+def handle_disagreement(ctx, scen, idx, segments, r, extra_problem, release, oracle, op_timeout):
     d = os.path.join(ctx.root, '%s_%s_shrink' % (scen, idx))
     n = [0]
+    single = len(segments) == 1
 
     def failing(cand):
         n[0] += 1
-        f = os.path.join(d, 'c%d.ops' % n[0])
         os.makedirs(d, exist_ok=True)
-        C.write_ops(f, cand)
-        rr = C.compare(f, os.path.join(d, 'w%d' % n[0]), release=release, op_timeout=op_timeout)
+        rr = C.compare_segments([cand], os.path.join(d, 'w%d' % n[0]), release=release, op_timeout=op_timeout)
         shutil.rmtree(os.path.join(d, 'w%d' % n[0]), ignore_errors=True)
         return not rr['ok']
-    small = lines
-    if not extra_problem and len(lines) <= 4000:
+    small = segments
+    if single and not extra_problem and len(segments[0]) <= 4000:
         try:
-            small = C.shrink(lines, failing, budget=ctx.scale(60, 200))
+            small = [C.shrink(segments[0], failing, budget=ctx.scale(60, 200))]
         except Exception as e:
             C.log('shrink failed', e)
-    f = os.path.join(d, 'final.ops')
     os.makedirs(d, exist_ok=True)
-    C.write_ops(f, small)
-    rr = C.compare(f, os.path.join(d, 'wf'), release=release, op_timeout=op_timeout) if not extra_problem else r
-    verdict = (oracle or api_oracle)(small, os.path.join(d, 'or'), release) if True else None
+    rr = C.compare_segments(small, os.path.join(d, 'wf'), release=release, op_timeout=op_timeout) if not extra_problem else r
+    verdict = (oracle or api_oracle)(small, os.path.join(d, 'or'), release)
     head = ['property %s, scenario %s #%d, seed %s' % (ctx.pid, scen, idx, ctx.seed)]
     if extra_problem:
         head.append(extra_problem)
@@ -266,14 +279,19 @@ def handle_disagreement(ctx, scen, idx, lines, r, extra_problem, release, oracle
         head.append('correspondence Model(Db.step) vs implementation breaks at op %s: `%s`' % (rr.get('index'), rr.get('op', '')[:200]))
         head.append('  implementation: %s' % str(rr.get('impl'))[:300])
         head.append('  model        : %s' % str(rr.get('model'))[:300])
+    flat = []
+    for si, seg in enumerate(small):
+        if len(small) > 1:
+            flat.append('# --- process %d ---' % si)
+        flat += seg
     if verdict or extra_problem:
         head.append('direct oracle: ' + (verdict or extra_problem))
-        head.append('replay: /verif/build/cargo-target/debug/harness run <this file> <empty dir>')
-        ctx.violation('%s_%s' % (scen, idx), '\n'.join(head), small, found=True)
+        head.append('replay: ./check %s --replay <this file>' % ctx.pid)
+        ctx.violation('%s_%s' % (scen, idx), '\n'.join(head), flat, found=True)
     else:
         head.append('direct oracle: found no failing input (the implementation satisfies the property statement on this history); '
                     'the correspondence named above no longer checks, so the property is no longer shown to hold')
-        ctx.violation('%s_%s' % (scen, idx), '\n'.join(head), small, found=False)
+        ctx.violation('%s_%s' % (scen, idx), '\n'.join(head), flat, found=False)
     shutil.rmtree(d, ignore_errors=True)
 
 
@@ -295,7 +313,7 @@ def run_corpus(ctx):
     parallel(one, list(enumerate(sel)))
 
 
-CORPUS_FOR = {'D1': ['C03', 'C16', 'C02'], 'D2': ['C04', 'C07', 'C01'], 'D3': ['C06', 'C17', 'C05'], 'D4': ['C08', 'C01'],
+CORPUS_FOR = {'D1': ['C03', 'C16', 'C02'], 'D9': ['C03'], 'D2': ['C04', 'C07', 'C01'], 'D3': ['C06', 'C17', 'C05'], 'D4': ['C08', 'C01'],
               'D5': ['C07'], 'D7': ['C01', 'C09']}
 
 
@@ -311,10 +329,18 @@ def proof_broken(ctx, proof):
 
 
 def replay(ctx, path):
-    lines = C.ops_of(path)
+    segs = [[]]
+    for l in open(path):
+        l = l.strip()
+        if l.startswith('# --- process'):
+            if segs[-1]:
+                segs.append([])
+            continue
+        if l and not l.startswith('#'):
+            segs[-1].append(l)
     d = os.path.join(ctx.root, 'replay')
-    r = C.compare(_tmp_ops(d, lines), os.path.join(d, 'w'))
-    v = api_oracle(lines, os.path.join(d, 'or'))
+    r = C.compare_segments(segs, os.path.join(d, 'w'))
+    v = api_oracle(segs, os.path.join(d, 'or'))
     print('correspondence:', 'agrees' if r['ok'] else 'breaks at op %s `%s`: impl=%s model=%s' % (r.get('index'), r.get('op'), r.get('impl'), r.get('model')))
     print('direct oracle :', v or 'no failing input')
     return 1 if (v or not r['ok']) else 0
@@ -546,3 +572,562 @@ def scen_C10(ctx):
 
 
 SCENARIOS['C10'] = scen_C10
+
+
+# ------------------------------------------------------------------ helpers for the remaining scenarios
+def mine_keys(n, buckets, rng, lens=(3, 5, 8)):
+    """byte keys for the given bucket indices of an n-bucket table"""
+    want = {b: None for b in buckets if 0 <= b < n}
+    i = 0
+    while any(v is None for v in want.values()):
+        k = bytes(rng.randrange(256) for _ in range(lens[i % len(lens)]))
+        b = O.check_map.__globals__['hash_key'](k) % n
+        if b in want and want[b] is None:
+            want[b] = k
+        i += 1
+    return want
+
+
+FLAVOURS = ['iter', 'iter_mut', 'keys', 'values', 'into_iter', 'ref_into_iter', 'mut_into_iter']
+
+
+# ------------------------------------------------------------------ C04
+def scen_C04(ctx):
+    ctx.rule = ('L_api, exact item sequence and size-hint sequence of all seven iterator entry points: `sparse` = tables of every power of two '
+                '1..65536 with few occupied buckets incl. 0, 7, 8, 63, 64, n-9, n-8, n-1 (inserted, partly deleted, emptied); `hist` = random '
+                'histories with traversals interleaved; distinct = distinct op files')
+    import random
+    sizes = [1, 2, 4, 8, 16, 32, 64, 128, 256, 512, 1024, 4096, 16384, 65536] if ctx.quick else [2 ** k for k in range(0, 17)]
+
+    def sparse(a):
+        i, n = a
+        rng = random.Random('%s/C04/%d' % (ctx.seed, i))
+        bs = sorted(set(b for b in (0, 1, 7, 8, 9, 63, 64, 65, n - 65, n - 64, n - 9, n - 8, n - 7, n - 1, n // 2, rng.randrange(n)) if 0 <= b < n))
+        ks = mine_keys(n, bs, rng)
+        keys = [ks[b] for b in bs]
+        rng.shuffle(keys)
+        lines = ['db d0 db', 'map m0 d0 bytes m B%d' % n, 'iter m0 iter']
+        for j, k in enumerate(keys):
+            lines.append('put m0 %s %02x' % (k.hex(), j))
+            if j % 3 == 0:
+                lines.append('iter m0 %s' % FLAVOURS[j % 7])
+        for fl in FLAVOURS:
+            lines.append('iter m0 %s' % fl)
+        # second key in some chains, then delete down to empty
+        extra = mine_keys(n, bs[:3], rng, lens=(9, 11))
+        for b, k in extra.items():
+            lines.append('put m0 %s aa' % k.hex())
+        lines.append('iter m0 iter')
+        for j, k in enumerate(keys + list(extra.values())):
+            lines.append('del m0 %s' % k.hex())
+            if j % 2 == 0:
+                lines.append('iter m0 %s' % FLAVOURS[(j + 3) % 7])
+        lines += ['iter m0 iter', 'len m0', 'closeall']
+        pair(ctx, 'sparse', i, lines, op_timeout=30)
+    parallel(sparse, list(enumerate(sizes)))
+
+    def hist(i):
+        g = G.G(ctx.seed, 'C04', i)
+        kt = G.KTS[i % 5]
+        lines = ['db d0 db', 'map m0 d0 %s m %s' % (kt, g.params())]
+        ks = g.key_universe(kt, g.rng.choice([2, 6, 15, 40]))
+        for _ in range(ctx.scale(8, 25)):
+            lines += g.hist(kt, g.rng.randrange(1, 30), keys=ks, big=0.01, reads=0.1)
+            lines.append('iter m0 %s' % g.rng.choice(FLAVOURS))
+            g.count('iter')
+        for k in ks:
+            lines.append('del m0 %s' % G.hx(k))
+        lines += ['iter m0 iter', 'closeall']
+        pair(ctx, 'hist', i, lines, stats=g.stats)
+    parallel(hist, range(ctx.scale(80, 600)))
+
+
+SCENARIOS['C04'] = scen_C04
+
+
+# ------------------------------------------------------------------ C02
+def scen_C02(ctx):
+    ctx.rule = ('`reopen`: histories cut into 2..4 sessions; between sessions every handle is dropped and the directory is re-opened with '
+                'other parameters (bucket count, buffer modes), alternately in the same process and in a freshly spawned one; after each reopen '
+                'every key, len and a traversal are read (L_api) and the closed files are compared byte-exactly with the model (L_img); distinct = distinct op files')
+
+    def one(i):
+        g = G.G(ctx.seed, 'C02', i)
+        kt = G.KTS[i % 5]
+        ks = g.key_universe(kt, g.rng.choice([4, 10, 25]))
+        nsess = g.rng.randrange(2, 5)
+        segs = [[]]
+        for sn in range(nsess):
+            cur = segs[-1]
+            cur += ['db d0 db', 'map m0 d0 %s m %s' % (kt, g.params())]
+            if sn > 0:
+                for k in ks:
+                    cur.append('get m0 %s' % G.hx(k))
+                cur += ['len m0', 'iter m0 %s' % g.rng.choice(FLAVOURS)]
+            cur += g.hist(kt, g.rng.randrange(5, ctx.scale(60, 200)), keys=ks, big=0.02)
+            if g.rng.random() < 0.3:
+                cur.append('flush m0')
+            cur += ['closeall', 'snap db']
+            if sn < nsess - 1 and g.rng.random() < 0.5:
+                segs.append([])         # next session in a new process
+        pair(ctx, 'reopen', i, segs, stats=g.stats, files_oracle=True)
+    parallel(one, range(ctx.scale(70, 500)))
+
+
+SCENARIOS['C02'] = scen_C02
+
+
+# ------------------------------------------------------------------ C03
+def scen_C03(ctx):
+    ctx.rule = ('every flush/sync_data/sync_all call (on a map and on the database) in a random history is a crash point: right after the call '
+                'the files on disk are checksummed while all handles are alive and compared with the model image (L_img), the directory is '
+                'copied and the copy later opened and read completely (L_api); in `kill` cases the writer is SIGKILLed right after the call and a '
+                'new process opens the directory; the io-trace hook shows each file being OS-synced after its last buffered write (L_trace); '
+                'a created-only map is covered; distinct = distinct op files')
+    SY = ['flush', 'syncall', 'syncdata']
+
+    def trace_ok(line, kind):
+        """each of val,key,htx: a sync event of the right kind after its last write"""
+        ev = line.split()[1:]
+        last_write = {}
+        synced = {}
+        for e in ev:
+            seq, f, what = e.split(':')
+            if what == 'write': last_write[f] = int(seq)
+            if what == kind: synced[f] = int(seq)
+        for f in ('val', 'key', 'htx'):
+            if f not in synced or synced[f] < last_write.get(f, 0):
+                return False
+        return True
+
+    def one(i):
+        g = G.G(ctx.seed, 'C03', i)
+        kt = G.KTS[i % 5]
+        ks = g.key_universe(kt, g.rng.choice([4, 10, 25]))
+        lines = ['db d0 db', 'map m0 d0 %s m %s' % (kt, g.params())]
+        if i % 6 == 0:
+            lines += ['%s m0' % g.rng.choice(SY), 'snap db', 'cpdir db c0']     # created only, never updated
+        ncp = 0
+        for _ in range(ctx.scale(5, 14)):
+            lines += g.hist(kt, g.rng.randrange(1, 40), keys=ks, big=0.03)
+            lines.append('trace')
+            op = g.rng.choice(SY + ['dbsyncall', 'dbsyncdata'])
+            lines.append('%s %s' % (op, 'd0' if op.startswith('db') else 'm0'))
+            g.count(op)
+            lines += ['trace', 'snap db']
+            if g.rng.random() < 0.5:
+                ncp += 1
+                lines.append('cpdir db c%d' % ncp)
+        kill = (i % 3 == 0)
+        if kill:
+            seg2 = ['db d0 db', 'map m0 d0 %s m default' % kt] + ['get m0 %s' % G.hx(k) for k in ks] + ['len m0', 'iter m0 iter', 'closeall', 'snap db']
+            segs = [lines + ['kill9'], seg2]
+        else:
+            lines += ['closeall']
+            segs = [lines]
+        # open the copies
+        tail = []
+        for c in range(0, ncp + 1):
+            if c == 0 and i % 6 != 0:
+                continue
+            tail += ['db dc%d c%d' % (c, c), 'map mc%d dc%d %s m default' % (c, c, kt)] + ['get mc%d %s' % (c, G.hx(k)) for k in ks] + \
+                    ['len mc%d' % c, 'iter mc%d keys' % c, 'closeall']
+        segs[-1] += tail
+        r = pair(ctx, 'kill' if kill else 'sync', i, segs, stats=g.stats)
+        # L_trace on the implementation's lines: at every successful sync_all/sync_data each of the
+        # three files must have been OS-synced after its last buffered write
+        if r.get('ok') and r.get('impl_lines'):
+            ops = [l for seg in segs for l in seg]
+            il = r['impl_lines']
+            last_write, last_sync = {}, {}
+            for j, op in enumerate(ops):
+                if j >= len(il):
+                    break
+                k = op.split()[0]
+                if k in ('map', 'closeall', 'db') or il[j] in ('killed', 'skipped'):
+                    if k == 'closeall':
+                        last_write, last_sync = {}, {}
+                    continue
+                if k == 'trace':
+                    for e in il[j].split()[1:]:
+                        seq, f, what = e.split(':')
+                        if what in ('write', 'set_len'): last_write[f] = int(seq)
+                        if what in ('sync_all', 'sync_data'): last_sync[f] = int(seq)
+                    if j > 0 and ops[j - 1].split()[0] in ('syncall', 'syncdata', 'dbsyncall', 'dbsyncdata') and il[j - 1] == 'ok':
+                        missing = [f for f in ('val', 'key', 'htx') if last_write.get(f, 0) > last_sync.get(f, -1)]
+                        if missing:
+                            ctx.violation('trace_%d' % i, 'after `%s` returned Ok the io-trace shows buffered writes to %s that were never followed by an OS sync request '
+                                          '(last write seq %s, last sync seq %s)' % (ops[j - 1], missing, last_write, last_sync), ops[:j + 1])
+                            break
+    parallel(one, range(ctx.scale(60, 400)))
+
+
+SCENARIOS['C03'] = scen_C03
+
+
+# ------------------------------------------------------------------ C05 / C06 / C17 (structure, reclamation, statistics)
+def structure_history(ctx, g, kt, i, cycles=False, stats_ops=True):
+    ks = g.key_universe(kt, g.rng.choice([3, 8, 20, 50]))
+    lines = ['db d0 db', 'map m0 d0 %s m %s' % (kt, g.params(n=g.rng.choice([1, 2, 8, 16, 64, 256])))]
+    for _ in range(ctx.scale(6, 20)):
+        lines += g.hist(kt, g.rng.randrange(1, 50), keys=ks, big=0.04, reads=0.1)
+        if stats_ops:
+            lines.append('stats m0')
+            g.count('stats')
+        lines += [g.rng.choice(['flush', 'syncall', 'syncdata']) + ' m0', 'snap db']
+    lines += ['stats m0', 'closeall', 'snap db']
+    return lines
+
+
+def scen_C05(ctx):
+    ctx.rule = ('L_img: byte-exact comparison of the three files with the model image at every sync point and at close, on random histories '
+                '(all key types, tables of 1..256 buckets, large values re-using large free slots); plus the independent decoder (lib/decoder.py, '
+                'written from the layout documentation) on the closed files: acyclic chains, keys in their bucket, no key twice, count, bitmap, '
+                'value ownership, contents = ideal map; distinct = distinct op files')
+
+    def one(i):
+        g = G.G(ctx.seed, 'C05', i)
+        kt = G.KTS[i % 5]
+        lines = structure_history(ctx, g, kt, i, stats_ops=False)
+        pair(ctx, 'struct', i, lines, stats=g.stats, files_oracle=True, oracle=contents_oracle)
+    parallel(one, range(ctx.scale(90, 700)))
+
+
+def contents_oracle(segments, workdir, release=False):
+    """api oracle + decoded contents of the closed files = ideal map"""
+    v = api_oracle(segments, workdir, release)
+    if v:
+        return v
+    if segments and not isinstance(segments[0], list):
+        segments = [segments]
+    ops = [l for seg in segments for l in seg if l.strip() and not l.startswith('#')]
+    ideal = O.Ideal()
+    il, ist = impl_only(segments, workdir, release)
+    ideal.check(ops, il, stop_at_first=False)
+    impl = os.path.join(workdir, 'impl')
+    for (dr, name), st in ideal.files.items():
+        p = os.path.join(impl, dr)
+        if os.path.exists(os.path.join(p, name + '.htx')):
+            probs, reps = O.files_ok(p, {name: st['m']})
+            if probs:
+                return 'independent decoder on %s: %s' % (dr, '; '.join(probs[:4]))
+    return None
+
+
+SCENARIOS['C05'] = scen_C05
+
+
+def scen_C06(ctx):
+    ctx.rule = ('L_img at every sync point (free-list heads and every slot are in the image, so a wrong slot choice, a missing push or an '
+                'extension while a suitable slot is free shows as a byte difference) + independent decoder (orphans, double membership, gaps, '
+                'overlaps) + `cyclic`: workloads with a bounded live set run for many rounds, file lengths must stop growing after the first '
+                'rounds; statistics calls under a watchdog; distinct = distinct op files')
+
+    def one(i):
+        g = G.G(ctx.seed, 'C06', i)
+        kt = G.KTS[i % 5]
+        lines = structure_history(ctx, g, kt, i)
+        pair(ctx, 'struct', i, lines, stats=g.stats, files_oracle=True, oracle=contents_oracle)
+    parallel(one, range(ctx.scale(60, 500)))
+
+    def cyclic(i):
+        g = G.G(ctx.seed, 'C06cyc', i)
+        r = g.rng
+        kt = G.KTS[i % 5]
+        ks = g.key_universe(kt, 10)
+        sizes = [r.choice(G.VAL_EDGES + [1100, 1500, 2000, 3000, 5000]) for _ in range(6)]
+        lines = ['db d0 db', 'map m0 d0 %s m B%d' % (kt, r.choice([1, 8, 64]))]
+        rounds = ctx.scale(30, 150)
+        marks = []
+        for rd in range(rounds):
+            order = list(ks)
+            r.shuffle(order)
+            for k in order[:7]:
+                lines.append('put m0 %s z%dx%d' % (G.hx(k), sizes[(rd + len(k)) % len(sizes)], rd % 250))
+            for k in order[:4]:
+                lines.append('del m0 %s' % G.hx(k))
+            if rd % 5 == 4:
+                lines += ['flush m0', 'snap db']
+                marks.append(len(lines) - 1)
+        lines += ['stats m0', 'closeall', 'snap db']
+        res = pair(ctx, 'cyclic', i, lines, files_oracle=True, oracle=contents_oracle)
+        if res.get('ok') and res.get('impl_lines'):
+            il = res['impl_lines']
+            def sizes_of(line):
+                return tuple(int(x.split('=')[1].split(':')[0]) for x in line.split()[1:])
+            lens = [sizes_of(il[m]) for m in marks]
+            # the live set and the value sizes are periodic: after the first third the files must not grow any more than
+            # one slot per size class in use (bounded by the live set, not by the number of rounds)
+            third = len(lens) // 3
+            if third >= 1 and len(lens) > third:
+                grow = [lens[-1][j] - lens[third][j] for j in range(3)]
+                bound = 10 * 2 * 6000
+                if any(x > bound for x in grow):
+                    ctx.violation('cyclic_%d' % i, 'cyclic workload with a bounded live set (10 keys, 6 value sizes): the files kept growing: '
+                                  'lengths (htx,key,val) after round %d: %s, at the end: %s' % (5 * third, lens[third], lens[-1]), lines)
+    parallel(cyclic, range(ctx.scale(10, 40)))
+
+
+SCENARIOS['C06'] = scen_C06
+
+
+def scen_C17(ctx):
+    ctx.rule = ('L_api: the statistics lines (free-slot counts per class, key/value length and slot-size histograms, bucket filling) of the crate '
+                'vs the model on every state class of random histories (small tables), and recomputed from the closed files by the independent '
+                'decoder; every stats call runs under the hang watchdog; distinct = distinct op files')
+
+    def stats_oracle(segments, workdir, release=False):
+        v = contents_oracle(segments, workdir, release)
+        if v:
+            return v
+        if segments and not isinstance(segments[0], list):
+            segments = [segments]
+        ops = [l for seg in segments for l in seg if l.strip() and not l.startswith('#')]
+        il, ist = impl_only(segments, workdir, release)
+        # the last stats line before closeall against the decoder's figures
+        last = None
+        for j, op in enumerate(ops):
+            if op.split()[0] == 'stats' and j < len(il):
+                last = (j, il[j])
+        if last is None:
+            return None
+        impl = os.path.join(workdir, 'impl', 'db')
+        if not os.path.isdir(impl):
+            return None
+        c, rep, probs = O.check_map(impl, 'm')
+        want = ('fk=%s fv=%s kps=%s vps=%s kl=%s vl=%s kc=[] fill=(%d, %d)' % (
+            str([(a, b) for a, b in zip(O.check_map.__globals__['SIZE_ARY'], rep['free_key'])]),
+            str([(a, b) for a, b in zip(O.check_map.__globals__['SIZE_ARY'], rep['free_val'])]),
+            str(rep['key_size_hist']), str(rep['val_size_hist']), str(rep['key_len_hist']), str(rep['val_len_hist']),
+            rep['nonempty_buckets'], rep['nonempty_buckets'] * 1000 // rep['n']))
+        got = last[1][len('stats '):]
+        # only valid if no update happened after that stats call
+        if any(op.split()[0] in ('put', 'del', 'put@', 'del@', 'bulkput', 'bulkdel', 'putiter') for op in ops[last[0]:]):
+            return None
+        if got != want:
+            return 'statistics at op %d differ from the figures recomputed from the files: got `%s` want `%s`' % (last[0], got[:300], want[:300])
+        return None
+
+    def one(i):
+        g = G.G(ctx.seed, 'C17', i)
+        kt = G.KTS[i % 5]
+        lines = structure_history(ctx, g, kt, i)
+        r = pair(ctx, 'stats', i, lines, stats=g.stats, oracle=stats_oracle)
+        if r.get('ok') and i % 5 == 0:
+            # also run the decoder-based recomputation on agreeing cases (the oracle is independent of the model)
+            v = stats_oracle([lines], os.path.join(ctx.root, 'so_%d' % i))
+            shutil.rmtree(os.path.join(ctx.root, 'so_%d' % i), ignore_errors=True)
+            if v:
+                ctx.violation('stats_oracle_%d' % i, v, lines)
+    parallel(one, range(ctx.scale(70, 500)))
+
+
+SCENARIOS['C17'] = scen_C17
+
+
+# ------------------------------------------------------------------ C07
+CONFIGS = ['B1,VS0,KS0,HS0', 'B4,VA,KP1000,HP1000', 'B8,VS131072,KS131072,HS131072', 'B128,VS262144,KA,HA',
+           'B4096,VS1048576,KS1048576,HS1048576', 'C1,VA,KA,HA', 'C100,VP1000,KP1000,HP1000', 'B3,VP1000,KS0,HA']
+
+
+def scen_C07(ctx):
+    ctx.rule = ('each random history is run under 4 of 8 configurations (1..4096 buckets given as BucketsSize or Capacity; Size(0)/Size(1 chunk)/'
+                'Size(2 chunks)/Size(1 MiB)/PerMille(1000)/Auto per file, values up to 200 KB so that the 4 KiB-chunk value buffer evicts) and '
+                'each run is compared with the one model (traversals up to permutation across bucket counts are compared per configuration with '
+                'the model of that configuration); reopen with other parameters (L_open); L_size: bucket-count derivation for BucketsSize/Capacity '
+                'x in 0..2^16 (quick: around every power of two) observed through real creations vs the model; known finding D8 probed in a child; '
+                'distinct = distinct (history, configuration) pairs')
+    import random
+
+    def one(i):
+        g = G.G(ctx.seed, 'C07', i)
+        kt = G.KTS[i % 5]
+        ks = g.key_universe(kt, g.rng.choice([4, 12, 30]))
+        body = g.hist(kt, ctx.scale(120, 500), keys=ks, big=0.08) + ['len m0', 'iter m0 iter']
+        for k in ks:
+            body.append('get m0 %s' % G.hx(k))
+        cfgs = g.rng.sample(CONFIGS, 4)
+        outs = []
+        for cfg in cfgs:
+            lines = ['db d0 db', 'map m0 d0 %s m %s' % (kt, cfg)] + body + ['closeall',
+                     'db d1 db', 'map m1 d1 %s m %s' % (kt, g.rng.choice(CONFIGS))] + ['get m1 %s' % G.hx(k) for k in ks] + ['len m1', 'closeall']
+            r = pair(ctx, 'cfg', i * 10 + CONFIGS.index(cfg), lines, stats=g.stats if cfg == cfgs[0] else None, op_timeout=40)
+            if r.get('ok') and r.get('impl_lines'):
+                # results (except the traversal order) must be identical across configurations
+                outs.append([l if not l.startswith('iter') else ' '.join(sorted(l.split()[2::2])) for l in r['impl_lines'][2:2 + len(body)]])
+        for o in outs[1:]:
+            if o != outs[0]:
+                j = next(x for x in range(len(o)) if o[x] != outs[0][x])
+                ctx.violation('cfg_cross_%d' % i, 'the same history gives different results under two configurations at op `%s`: `%s` vs `%s`'
+                              % (body[j][:100], outs[0][j][:150], o[j][:150]), ['db d0 db', 'map m0 d0 %s m %s' % (kt, cfgs[0])] + body)
+                break
+    parallel(one, range(ctx.scale(30, 250)))
+
+    # L_size: bucket count derivation
+    d = os.path.join(ctx.root, 'bk')
+    os.makedirs(d, exist_ok=True)
+    mode = [] if ctx.quick else ['all']
+    ri = C.sh([C.HARNESS, 'buckets', os.path.join(d, 'w'), str(65536)] + mode, timeout=3000)
+    il = [l for l in ri.stdout.split('\n') if l]
+    q = os.path.join(d, 'q.txt')
+    open(q, 'w').write(''.join(' '.join(l.split()[:2]) + '\n' for l in il))
+    rm = C.sh([C.DRIVER, 'buckets', q], timeout=3000)
+    ml = [l for l in rm.stdout.split('\n') if l]
+    ctx.evaluations += len(il)
+    ctx.scen_counts['buckets'] = len(il)
+    for l in il:
+        ctx.distinct.add(l)
+    for a, b in zip(il, ml):
+        t = a.split()
+        # direct oracle: a power of two >= 1 (Capacity(0) is rejected by a panic), never smaller than asked
+        if t[2] != 'panic':
+            n = int(t[2])
+            if n < 1 or n & (n - 1) or (t[0] == 'b' and n < int(t[1])) or (t[0] == 'c' and n < int(t[1])):
+                ctx.violation('buckets_%s_%s' % (t[0], t[1]), 'bucket count derived for %s(%s) is %d: not a power of two >= the request'
+                              % ('BucketsSize' if t[0] == 'b' else 'Capacity', t[1], n), None)
+                break
+        elif not (t[0] == 'c' and t[1] == '0'):
+            ctx.violation('buckets_%s_%s' % (t[0], t[1]), 'creating a map with %s(%s) panics' % ('BucketsSize' if t[0] == 'b' else 'Capacity', t[1]), None)
+            break
+        if a != b:
+            # the model's copy of the load-factor rule differs: reported, not a condition (DESIGN.md C07)
+            ctx.distribution.setdefault('buckets_rule_differs', {})[a] = 1
+    # known finding D8: PerMille below 1000 on a file that outgrows one chunk
+    kf = [k for k in C.known_findings() if k.get('property') == 'C07']
+    if kf:
+        lines = ['db d0 db', 'map m0 d0 bytes m B8,VP500'] + ['put m0 %s z300x%d' % (('q%04d' % j).encode().hex(), j % 200) for j in range(800)] + ['len m0', 'closeall']
+        il, ist = impl_only(lines, os.path.join(ctx.root, 'd8'), op_timeout=10)
+        if ist != 'ok' or any(l in ('panic', 'hang') for l in il):
+            ctx.known.append('class=permille-below-1000 `map .. B8,VP500` + 800 puts of 300 bytes ends with %s (rabuf add_chunk recursion, dependency)' % ist)
+        shutil.rmtree(os.path.join(ctx.root, 'd8'), ignore_errors=True)
+
+
+SCENARIOS['C07'] = scen_C07
+
+
+# ------------------------------------------------------------------ C08
+def scen_C08(ctx):
+    ctx.rule = ('`collide`: maps whose keys all collide (single bucket, and mined keys in one bucket of a 4-bucket table), key lengths exactly on key-slot '
+                'boundaries (so that a wider offset moves the record), value file pushed past the 16 KiB and 2 MiB offset-width boundaries by fillers; '
+                'breadth-first exploration of the state graph over an alphabet of 3 keys x 4 value sizes + deletes from three start images, states '
+                'identified by the model image, every path executed on the implementation and compared op by op (L_api + L_img at the end); '
+                'random collide histories on top; distinct = distinct op files')
+    import random
+    rng0 = random.Random('%s/C08' % ctx.seed)
+
+    def tight_keys(voff_w, noff_w, count, rng):
+        # key lengths with zero slack: 1(size)+1(klen)+klen+voff_w+noff_w == a class size
+        out = []
+        for cls in (16, 24, 32, 48, 64):
+            kl = cls - 2 - voff_w - noff_w
+            if kl >= 1:
+                out.append(kl)
+        return out[:count]
+
+    def start_image(kind):
+        """setup ops that lead to the start image"""
+        lines = ['db d0 db', 'map m0 d0 bytes m B1']
+        if kind == 'empty':
+            return lines
+        if kind == '16k':
+            # fillers: value file just below 16 KiB with free slots below
+            for j in range(31):
+                lines.append('put m0 %s z500x%d' % (('f%02d' % j).encode().hex(), j))
+            for j in range(0, 30, 5):
+                lines.append('del m0 %s' % ('f%02d' % j).encode().hex())
+            return lines
+        if kind == '2m':
+            lines.append('put m0 %s z2090000x7' % b'big'.hex())
+            for j in range(8):
+                lines.append('put m0 %s z900x%d' % (('g%02d' % j).encode().hex(), j))
+            lines.append('del m0 %s' % b'g03'.hex())
+            return lines
+        raise ValueError(kind)
+
+    # key lengths whose record fills its slot exactly (size field 1 + length field 1 + key + value offset + next offset):
+    # empty bucket (next = 0: 1 byte) and value offsets below 16 KiB (2 bytes): 11, 19, 27; in a non-empty chain (next: 2 bytes): 10, 18, 26;
+    # value offsets of 3 bytes (16 KiB..2 MiB) about to become 4: 9, 17, 25
+    KL = {'empty': [11, 19, 27], '16k': [10, 18, 26], '2m': [9, 17, 25]}
+    klens = [9, 10, 11, 17, 18, 19, 25, 26, 27]
+    def alphabet(kind):
+        keys = [bytes([65 + j]) * kl for j, kl in enumerate(KL[kind])]
+        vals = [0, 14, 600, 1100]
+        ops = []
+        for k in keys:
+            for v in vals:
+                ops.append('put m0 %s z%dx%d' % (k.hex(), v, v % 200) if v else 'put m0 %s -' % k.hex())
+            ops.append('del m0 %s' % k.hex())
+        return keys, ops
+
+    cap = ctx.scale(70, 1500)
+    depth = ctx.scale(3, 5)
+    for kind in (['empty', '16k'] if ctx.quick else ['empty', '16k', '2m']):
+        keys, alpha = alphabet(kind)
+        check_tail = ['get m0 %s' % k.hex() for k in keys] + ['len m0', 'iter m0 iter', 'stats m0', 'flush m0', 'snap db']
+        setup = start_image(kind)
+        frontier = [[]]
+        seen = set()
+        case_no = [0]
+        for dpt in range(depth):
+            # model-only pass: identify new states
+            cand = [p + [o] for p in frontier for o in alpha]
+            if kind == '2m':
+                cand = cand[:ctx.scale(20, 60)]
+            # run the model on every candidate path (in parallel chunks) to get state ids
+            new_frontier = []
+            per = len(setup) + dpt + 1 + 3
+
+            def model_chunk(a):
+                ck, chunk = a
+                f = os.path.join(ctx.root, 'bfs_%s_%d_%d.ops' % (kind, dpt, ck))
+                lines = []
+                for ci, p in chunk:
+                    su = [l.replace('db d0 db', 'db d0 p%d' % ci) for l in setup]
+                    lines += su + p + ['flush m0', 'snap p%d' % ci, 'closeall']
+                C.write_ops(f, lines)
+                ml, mst = C.run_model(f, timeout=1200)
+                os.remove(f)
+                return [(ci, ml[j * per + per - 2] if j * per + per - 2 < len(ml) else None) for j, (ci, p) in enumerate(chunk)]
+            idx = list(enumerate(cand))
+            chunks = [idx[c::12] for c in range(12)]
+            sids = {}
+            for res in parallel(model_chunk, [(ck, ch) for ck, ch in enumerate(chunks) if ch]):
+                for ci, sid in res:
+                    sids[ci] = sid
+            for ci, p in enumerate(cand):
+                sid = sids.get(ci)
+                if sid and sid not in seen and len(seen) < cap:
+                    seen.add(sid)
+                    new_frontier.append(p)
+            # every new path on the implementation, compared with the model
+            def runp(a):
+                j, p = a
+                pair(ctx, 'bfs_%s_d%d' % (kind, dpt + 1), j, setup + p + check_tail + ['closeall', 'snap db'], files_oracle=(j % 4 == 0), op_timeout=60)
+            parallel(runp, list(enumerate(new_frontier)), workers=12 if kind != '2m' else 4)
+            frontier = new_frontier
+            if not frontier:
+                break
+        ctx.distribution.setdefault('bfs_states', {})[kind] = len(seen)
+
+    def collide_hist(i):
+        g = G.G(ctx.seed, 'C08', i)
+        r = g.rng
+        n = r.choice([1, 1, 4])
+        if n == 1:
+            ks = [bytes(r.randrange(256) for _ in range(r.choice(klens + [3, 43, 59]))) for _ in range(r.randrange(2, 7))]
+            ks = list(dict.fromkeys(ks))
+        else:
+            ks = g.colliding_keys(4, r.randrange(4), r.randrange(2, 6), klens)
+        lines = ['db d0 db', 'map m0 d0 bytes m B%d' % n]
+        nf = r.choice([0, 28, 33])
+        for j in range(nf):
+            lines.append('put m0 %s z500x%d' % (('f%02d' % j).encode().hex(), j))
+        for j in range(0, nf, 4):
+            lines.append('del m0 %s' % ('f%02d' % j).encode().hex())
+        lines += g.hist('bytes', ctx.scale(150, 600), keys=ks, big=0.0, reads=0.25)
+        lines += ['iter m0 iter', 'stats m0', 'closeall', 'snap db']
+        pair(ctx, 'collide', i, lines, stats=g.stats, files_oracle=True)
+    parallel(collide_hist, range(ctx.scale(60, 500)))
+
+
+SCENARIOS['C08'] = scen_C08
